@@ -253,8 +253,10 @@ def run(chk):
     wops, wmeta = [], []
     for _ in range(6 if not thorough else 40):
         xs = gen.sub_collection(rng, pool, rng.randint(3, 9))
-        seq_w = [(1, 1, 1), (1, 1, 2), (2, 1, 1), (1, 1, 1), (1, 3, 1)]
+        seq_w = [(1, 1, 1), (1, 1, 2), (2, 1, 1), (1, 1, 1), (1, 3, 1), (2, 2, 2), (3, 3, 3)]
         rng.shuffle(seq_w)
+        if _ == 0:
+            seq_w = [(2, 2, 2), (1, 1, 1), (3, 3, 3), (1, 1, 2)]      # every run: uniform weights other than 1 (all distances scaled)
         for (wi, wd, ws) in seq_w[:4]:
             lk = dict(method="average")
             ck = dict(t=2, criterion="distance")
